@@ -12,6 +12,12 @@ impl FrameStore {
     //@@ end
     //@@ fn crates/rip-tui/src/frame_store.rs FrameStore::push
     //@@ end
+    //@@ fn crates/rip-tui/src/frame_store.rs FrameStore::first_seq
+    //@@ end
+    //@@ fn crates/rip-tui/src/frame_store.rs FrameStore::last_seq
+    //@@ end
+    //@@ fn crates/rip-tui/src/frame_store.rs FrameStore::is_empty
+    //@@ end
     //@@ fn crates/rip-tui/src/frame_store.rs FrameStore::index_of_seq
     //@@ end
     //@@ fn crates/rip-tui/src/frame_store.rs FrameStore::get_by_seq
